@@ -399,11 +399,13 @@ def gen_query(rng):
     return qy
 
 
-def gen_op(rng, used):
-    """used: names that occurred already (to make collisions, children and renames of existing trees likely)"""
-    def pick():
-        if used and rng.random() < 0.65:
-            n = rng.choice(used)
+def gen_op(rng, used, live):
+    """used: names that occurred already, live: names in the mailboxes table now (to make collisions,
+    children and renames of existing trees likely)"""
+    def pick(existing=0.0):
+        pool = live if (live and rng.random() < existing) else used
+        if pool and rng.random() < 0.7:
+            n = rng.choice(pool)
             r = rng.random()
             if r < 0.15 and n.count("/") < 2:
                 return n + "/" + rng.choice(LEVELS[:4])
@@ -414,19 +416,19 @@ def gen_op(rng, used):
 
     r = rng.random()
     if r < 0.27:
-        return ("create", pick())
+        return ("create", pick(0.2))
     if r < 0.47:
-        return ("delete", pick())
+        return ("delete", pick(0.7))
     if r < 0.63:
-        return ("rename", pick(), pick())
+        return ("rename", pick(0.8), pick(0.15))
     if r < 0.74:
-        return ("subscribe", pick())
+        return ("subscribe", pick(0.8))
     if r < 0.79:
-        return ("unsubscribe", pick())
+        return ("unsubscribe", pick(0.8))
     if r < 0.90:
-        return ("append", pick())
+        return ("append", pick(0.85))
     if r < 0.95:
-        return ("select", pick())
+        return ("select", pick(0.6))
     return ("restart",)
 
 
@@ -441,7 +443,8 @@ def run_history(ctx, seed, nops, nprobes, witness=None):
         t = d.observe_state()
         script = list(witness) if witness else None
         for step in range(nops if script is None else len(script)):
-            o = script[step] if script is not None else gen_op(rng, used)
+            live = [x[0] for x in t if x[0] not in SPECIAL or rng.random() < 0.3]
+            o = script[step] if script is not None else gen_op(rng, used, live)
             k = o[0]
             if k != "restart":
                 names = [o[1]] + ([o[2]] if k == "rename" else [])
